@@ -7,7 +7,7 @@
     errwrap  {"exc": null | {cls, isException, isValueError, line, column, str}, "version", "path", "lines"}
              -> {"returned": true} | {"raised": cls, "msg": msg};  attr: "missing" | null | int | "other"
     preexpand {"lines": [str]} -> {"ok": [str]}   (`_apply_pre_parsing_expansions`, line lists)
-    textseg  {"text": str, "toks": [[offset, ty, len]]} -> {"seg": [pieces]} | {"segerr": "badChar"}
+    textseg  {"text": str, "toks": [[offset, ty, len]], "k": n?} -> {"seg": [pieces], "text"?: scaled text} | {"segerr": "badChar"}
              the character-level scanner `TextLayout.seg` with the body-token oracle given as a table of token starts
     numbered {"lines": [str], "k": n?} -> {"ok": [[text, indentation, comment|null]], "tight": bool} | {"err": "IndexError", "tight": bool}
              with "k": the records of the lines after `scaleLine k`; "tight" = every line satisfies `openerTight` (hypothesis of
@@ -129,10 +129,15 @@ def handle (op : String) (j : Json) : Except String Json := do
       match a.toList with
       | [p, .str ty, n] => do pure ((← p.getNat?), ty, (← n.getNat?))
       | _ => throw "bad token entry"
-    let cs := text.toList
+    -- with "k": the text is first scaled by `TextLayout.scaleText k` (the table then refers to the scaled text, which is returned too)
+    let (cs, extra) := match j.getObjVal? "k" with
+      | .ok kj => match kj.getNat? with
+        | .ok k => let t := TextLayout.scaleText k false text.toList; (t, [("text", safeStr (String.ofList t))])
+        | _ => (text.toList, [])
+      | _ => (text.toList, [])
     match TextLayout.seg (TextLayout.tableOracle cs.length table) false 0 cs with
-    | .error e => pure (Json.mkObj [("segerr", .str (errName e))])
-    | .ok ps => pure (Json.mkObj [("seg", Json.arr (ps.map pieceToJson).toArray)])
+    | .error e => pure (Json.mkObj (("segerr", .str (errName e)) :: extra))
+    | .ok ps => pure (Json.mkObj (("seg", Json.arr (ps.map pieceToJson).toArray) :: extra))
   | _ => throw s!"unknown op C13.{op}"
 
 end NemoVerif.Drive.C13
